@@ -38,6 +38,11 @@ add(Job('is_6531_local', 'harness/is_6531_local.c', enforce='is_6531_local', loo
         expect=['postcondition', 'loop_invariant_base', 'loop_invariant_step', 'loop_decreases', 'assigns'],
         functions=['is_6531_local', 'utf8_decode_init/next/at_byte (inlined)'], files=['src/is_6531_local.c', 'src/utf8_decode.c'],
         assumptions=[A1, A9], note='g_len <= 2^31-16 (the decoder stores lengths in int)'))
+add(Job('is_6531_local+wf', 'harness/is_6531_local.c', enforce='is_6531_local', loops=True, timeout=3000, reach=3, defines=['-DWF_POST'], solvers=('minisat2+ra',), mem_est=4,
+        extra_sources=['src/utf8_decode.c'],
+        expect=['postcondition', 'loop_invariant_base', 'loop_invariant_step', 'loop_decreases', 'assigns'],
+        functions=['is_6531_local', 'utf8_decode_init/next/at_byte (inlined)'], files=['src/is_6531_local.c', 'src/utf8_decode.c'],
+        assumptions=[A1, A9], note='the contract of job is_6531_local plus: EEAV_LPART_INVALID_UTF8 => no well-formed UTF-8 sequence (Unicode Table 3-7) starts at the position reached (four more reads of the input; 12 min with --refine-arrays, out of memory without); thorough tier'))
 add(Job('utf8_decode_next', 'harness/utf8_decode_next.c', enforce='utf8_decode_next', timeout=600, reach=3,
         expect=['postcondition', 'assigns'], functions=['utf8_decode_next', 'get, cont (inlined)'], files=['src/utf8_decode.c'],
         assumptions=[A9], note='loop-free: complete for every byte tuple at every offset; Unicode Table 3-7'))
